@@ -175,6 +175,7 @@ def WF(S, uses=None):
     if allf or 'hl' in uses:
         c['HASLVL-def'] = And(Not(S.hl[1]), node(lambda x: S.hl[x] == Or(S.lvl[x] == HL, S.hl[absz(S.lo[x])], S.hl[S.hi[x]])))
         c['HASLVL-above'] = ForAll([u], Implies(And(S.dom[u], S.lvl[u] > HL), Not(S.hl[u])), patterns=[S.dom[u]])
+        c['HASLVL-range'] = ForAll([u], Implies(And(S.dom[u], S.hl[u]), And(0 <= HL, HL < S.nvars)), patterns=[S.dom[u]])
     if allf or 'order' in uses:
         c['W8-vars-to-levels'] = ForAll([n], Implies(S.vin[n], And(0 <= S.v2l[n], S.v2l[n] < S.nvars, S.lin[S.v2l[n]],
                                                                    S.l2v[S.v2l[n]] == n)), patterns=[S.vin[n]])
